@@ -390,6 +390,11 @@ impl Prop for C06 {
             (Lay::Probhat, O_FSUGG | O_ENG | O_KARORDER, vec![('i', 0)]),
             (Lay::Probhat, O_FSUGG | O_ENG | O_KARORDER, vec![('k', 0), ('i', 0), ('[', 0)]),
             (Lay::Probhat, O_FSUGG | O_ENG, vec![('k', 0), ('/', 0), ('a', 0)]),
+            // a waiting sign replaced by another waiting sign (two or three keys, nothing composed)
+            (Lay::Probhat, O_FSUGG | O_ENG | O_KARORDER, vec![('i', 0), ('[', 0)]),
+            (Lay::Probhat, O_FSUGG | O_ENG | O_KARORDER, vec![('[', 0), ('i', 0), ('[', 0)]),
+            (Lay::Verif, O_FSUGG | O_ENG | O_KARORDER | O_VOWEL | O_TKAR, vec![('k', 0), ('i', 0), ('[', 0)]),
+            (Lay::Probhat, O_ENG | O_KARORDER, vec![('i', 0), ('[', 0)]),
             (Lay::Verif, O_FSUGG | O_ENG | O_REPH, vec![('r', 2), ('k', 0), ('q', 2)]),
             (Lay::Verif, O_FSUGG | O_ENG | O_KARORDER | O_VOWEL, vec![('[', 0), ('a', 0)]),
             (Lay::Probhat, O_FSUGG | O_ENG, vec![(';', 0), (')', 0)]),
